@@ -495,6 +495,34 @@ func analyzeLocksIn(body *ast.BlockStmt, entry LockSet, opts *FlowOpts, visit Vi
 		opts = &o2
 	}
 	g := cfg.New(body, mayReturn(opts.Info))
+	// may-analysis: an unconditional `defer m.Unlock()` among the top-level statements releases m
+	// at every exit that follows it - also when the section is opened again after a temporary
+	// Unlock (Lock; defer Unlock; ...; Unlock; wait; Lock)
+	var topDefer map[string]token.Pos
+	if opts.May {
+		hasGoto := false
+		ast.Inspect(body, func(n ast.Node) bool {
+			if bs, ok := n.(*ast.BranchStmt); ok && bs.Tok == token.GOTO {
+				hasGoto = true
+			}
+			return true
+		})
+		if !hasGoto {
+			probe := &walker{opts: opts}
+			for _, st := range body.List {
+				if ds, ok := st.(*ast.DeferStmt); ok {
+					if op, path := probe.lockOpOf(ds.Call); op == "Unlock" || op == "RUnlock" {
+						if topDefer == nil {
+							topDefer = map[string]token.Pos{}
+						}
+						if _, dup := topDefer[path]; !dup {
+							topDefer[path] = ds.End()
+						}
+					}
+				}
+			}
+		}
+	}
 	in := make([]LockSet, len(g.Blocks))
 	visited := make([]bool, len(g.Blocks))
 	preds := make([][]int32, len(g.Blocks))
@@ -518,7 +546,7 @@ func analyzeLocksIn(body *ast.BlockStmt, entry LockSet, opts *FlowOpts, visit Vi
 		work = work[1:]
 		b := g.Blocks[bi]
 		st := in[bi]
-		w := &walker{opts: opts, st: st}
+		w := &walker{opts: opts, st: st, topDefer: topDefer}
 		for _, n := range b.Nodes {
 			w.node(n, nil)
 		}
@@ -558,7 +586,7 @@ func analyzeLocksIn(body *ast.BlockStmt, entry LockSet, opts *FlowOpts, visit Vi
 		if !visited[b.Index] {
 			continue
 		}
-		w := &walker{opts: opts, st: in[b.Index], visit: visit, pendingLits: pendingLits, analysedLits: analysedLits, litAlias: litAlias}
+		w := &walker{opts: opts, st: in[b.Index], visit: visit, pendingLits: pendingLits, analysedLits: analysedLits, litAlias: litAlias, topDefer: topDefer}
 		for _, n := range b.Nodes {
 			w.node(n, nil)
 		}
@@ -604,6 +632,7 @@ type walker struct {
 	pendingLits  map[types.Object]*ast.FuncLit
 	analysedLits map[*ast.FuncLit]bool
 	litAlias     map[*ast.FuncLit]map[string]string // literals that came out of a closure factory
+	topDefer     map[string]token.Pos               // may-analysis: mutex -> end of its unconditional top-level deferred unlock
 }
 
 func (w *walker) emit(n ast.Node, stack []ast.Node) {
@@ -1000,6 +1029,9 @@ func (w *walker) callParts(call *ast.CallExpr, stack []ast.Node, deferred bool) 
 		return
 	}
 	op, path := w.lockOpOf(call)
+	if dp, ok := w.topDefer[path]; ok && (op == "Lock" || op == "RLock") && call.Pos() > dp {
+		return // re-opened section: the pending deferred unlock releases it at every exit
+	}
 	switch op {
 	case "Lock":
 		w.st = w.st.with(path, ModeW)
